@@ -785,6 +785,9 @@ func genOps(r *Rng, live map[string]val, seeds []seed, n int, forceSeedDelete bo
 		case k < 22: // create a new id
 			fresh++
 			id := "n1" + strings.Repeat("0", fresh-1) // n1, n10, n100, ...: every id is a strict prefix of the next
+			if r.Chance(45) { // an id starting with / containing '$', like or extending a marker key
+				id = dollarPool[r.Intn(len(dollarPool))]
+			}
 			if _, ok := live[id]; ok {
 				id = fmt.Sprintf("m%d", i)
 			}
@@ -853,6 +856,10 @@ func failingInits(seeds []seed, k0, k int) []op {
 	return out
 }
 
+// dollarPool: ids that look like BadgerDB-internal / marker keys.  Set per workload: the id equal to
+// the store's OWN marker key ("$init" without prefix) is left out - it IS the marker key there.
+var dollarPool []string
+
 type workload struct {
 	prefix     string
 	nidx       int
@@ -871,6 +878,10 @@ func genWorkload(r *Rng, w int, thorough bool) workload {
 	wl.untyped = w == 1 || w == 3 || (w >= 4 && (w/2)%2 == 1)
 	if w >= 2 && (w/4)%2 == 1 {
 		wl.nidx = 1
+	}
+	dollarPool = []string{"$", "$x", "$tmp", "$init2", "$pfx.init", "$pfxinit", "$pfxinit2", "a$b"}
+	if wl.prefix != "" {
+		dollarPool = append(dollarPool, "$init")
 	}
 	ns := 2 + r.Intn(2)
 	if w < 2 {
@@ -895,6 +906,9 @@ func genWorkload(r *Rng, w int, thorough bool) workload {
 			s.A, s.B = r.Pick(avals[:3]), r.Pick(bvals[1:])
 		} else if i == 2 {
 			s.B = ""
+		}
+		if i == 3 && w%3 == 0 {
+			s.ID = "$tmp" // a seed whose id starts with '$'
 		}
 		seeds = append(seeds, s)
 		live[s.ID] = val{s.A, s.B}
@@ -1000,7 +1014,7 @@ func capacityJobs(thorough bool) []jobDesc {
 		creates = append(creates, op{K: "create", ID: fmt.Sprintf("c%03d", i), A: []string{"x", "y", ""}[i%3], B: []string{"u", ""}[i%2]})
 	}
 	kill := func(n int) string { return fmt.Sprintf("init-seed-set:%d", n) }
-	tail := []op{{K: "init", Seeds: small3}, {K: "create", ID: "n1", A: "x"}, {K: "delete", ID: "s10"}, {K: "init", Seeds: small3}}
+	tail := []op{{K: "init", Seeds: small3}, {K: "create", ID: "$x", A: "y", B: "u"}, {K: "create", ID: "n1", A: "x"}, {K: "delete", ID: "s10"}, {K: "init", Seeds: small3}}
 	js := []jobDesc{
 		// below the limit: one atomic Init, RebuildIndexes fits (1 index) or not (2 indexes)
 		{"", 1, false, true, []lifeSpec{{Ops: []op{bulk(lim - 50)}, NoQS: true}}},
